@@ -560,25 +560,26 @@ def stmtsOf (bs : List Block) : List Stmt := bs.flatMap (·.stmts)
 theorem stmtsOf_append (bs : List Block) (b : Block) : stmtsOf (bs ++ [b]) = stmtsOf bs ++ b.stmts := by
   simp [stmtsOf]
 
-def passStep (acc : List Stmt × ValEnv × Bool) (s : Stmt) : List Stmt × ValEnv × Bool :=
+def passStep (n : Nat) (acc : List Stmt × ValEnv × Bool) (s : Stmt) : List Stmt × ValEnv × Bool :=
   let (done, env, c) := acc
   if c then (done ++ [s], env, true)
+  else if phiShort n s then (done ++ [s], env, false)
   else let (s', env', c') := valStmt env s; (done ++ [s'], env', c')
 
 def blockStep (acc : List Block × ValEnv × Bool) (b : Block) : List Block × ValEnv × Bool :=
   let (bs, env, c) := acc
   if c then (bs ++ [b], env, true)
   else
-    let (ss, env', c') := b.stmts.foldl passStep ([], env, false)
-    (bs ++ [{ stmts := ss }], env', c')
+    let (ss, env', c') := b.stmts.foldl (passStep b.npreds) ([], env, false)
+    (bs ++ [{ b with stmts := ss }], env', c')
 
 theorem valPass_eq (env : ValEnv) (bs : List Block) : valPass env bs = bs.foldl blockStep ([], env, false) := rfl
 
-theorem stmts_fold (p : Int) (P : List Stmt) (hsd : SingleDef P) :
+theorem stmts_fold (p : Int) (P : List Stmt) (hsd : SingleDef P) (n : Nat) :
     ∀ (rest done : List Stmt) (env : ValEnv) (c : Bool) (M : Stmt → Prop),
       GInv p P env M → (∀ t, t ∈ done → M t) → (∀ t, t ∈ rest → M t) →
-      ∃ M' : Stmt → Prop, (∀ t, M t → M' t) ∧ GInv p P (rest.foldl passStep (done, env, c)).2.1 M' ∧
-        ∀ t, t ∈ (rest.foldl passStep (done, env, c)).1 → M' t := by
+      ∃ M' : Stmt → Prop, (∀ t, M t → M' t) ∧ GInv p P (rest.foldl (passStep n) (done, env, c)).2.1 M' ∧
+        ∀ t, t ∈ (rest.foldl (passStep n) (done, env, c)).1 → M' t := by
   intro rest
   induction rest with
   | nil => intro done env c M h hd _; exact ⟨M, fun _ h => h, h, hd⟩
@@ -587,7 +588,7 @@ theorem stmts_fold (p : Int) (P : List Stmt) (hsd : SingleDef P) :
     simp only [List.foldl_cons]
     cases c with
     | true =>
-      have : passStep (done, env, true) s = (done ++ [s], env, true) := rfl
+      have : passStep n (done, env, true) s = (done ++ [s], env, true) := rfl
       rw [this]
       apply ih (done ++ [s]) env true M h
       · intro t ht
@@ -596,7 +597,18 @@ theorem stmts_fold (p : Int) (P : List Stmt) (hsd : SingleDef P) :
         · simp only [List.mem_singleton] at h1; subst h1; exact hr _ List.mem_cons_self
       · exact fun t ht => hr t (List.mem_cons_of_mem _ ht)
     | false =>
-      have : passStep (done, env, false) s = (done ++ [(valStmt env s).1], (valStmt env s).2.1, (valStmt env s).2.2) := rfl
+      by_cases hps : phiShort n s = true
+      · have : passStep n (done, env, false) s = (done ++ [s], env, false) := by
+          simp only [passStep, hps, if_true, Bool.false_eq_true, if_false]
+        rw [this]
+        apply ih (done ++ [s]) env false M h
+        · intro t ht
+          rcases List.mem_append.mp ht with h1 | h1
+          · exact hd t h1
+          · simp only [List.mem_singleton] at h1; subst h1; exact hr _ List.mem_cons_self
+        · exact fun t ht => hr t (List.mem_cons_of_mem _ ht)
+      have : passStep n (done, env, false) s = (done ++ [(valStmt env s).1], (valStmt env s).2.1, (valStmt env s).2.2) := by
+        simp only [passStep, hps, Bool.false_eq_true, if_false]
       rw [this]
       have hm := micro p P hsd env M h s (hr _ List.mem_cons_self)
       obtain ⟨M', h1, h2, h3⟩ := ih (done ++ [(valStmt env s).1]) (valStmt env s).2.1 (valStmt env s).2.2
@@ -636,12 +648,12 @@ theorem blocks_fold (p : Int) (P : List Stmt) (hsd : SingleDef P) :
       · exact hb t h1
     | false =>
       have : blockStep (done, env, false) b =
-          (done ++ [{ stmts := (b.stmts.foldl passStep ([], env, false)).1 }],
-            (b.stmts.foldl passStep ([], env, false)).2.1, (b.stmts.foldl passStep ([], env, false)).2.2) := rfl
+          (done ++ [{ b with stmts := (b.stmts.foldl (passStep b.npreds) ([], env, false)).1 }],
+            (b.stmts.foldl (passStep b.npreds) ([], env, false)).2.1, (b.stmts.foldl (passStep b.npreds) ([], env, false)).2.2) := rfl
       rw [this]
-      obtain ⟨M₁, g1, g2, g3⟩ := stmts_fold p P hsd b.stmts [] env false M h (by intro t ht; simp at ht) hb
-      obtain ⟨M', h1, h2, h3⟩ := ih (done ++ [{ stmts := (b.stmts.foldl passStep ([], env, false)).1 }])
-        (b.stmts.foldl passStep ([], env, false)).2.1 (b.stmts.foldl passStep ([], env, false)).2.2 M₁ g2
+      obtain ⟨M₁, g1, g2, g3⟩ := stmts_fold p P hsd b.npreds b.stmts [] env false M h (by intro t ht; simp at ht) hb
+      obtain ⟨M', h1, h2, h3⟩ := ih (done ++ [{ b with stmts := (b.stmts.foldl (passStep b.npreds) ([], env, false)).1 }])
+        (b.stmts.foldl (passStep b.npreds) ([], env, false)).2.1 (b.stmts.foldl (passStep b.npreds) ([], env, false)).2.2 M₁ g2
         (by
           intro t ht
           rw [stmtsOf_append] at ht
